@@ -91,7 +91,7 @@ impl Prop for Lookup {
         192
     }
     fn cases(&self, tier: Tier) -> u64 {
-        tier.pick(6_000, 150_000)
+        tier.pick(6_000, 400_000)
     }
     fn generate(&self, g: &mut Gen) -> Case {
         let apex = gen_apex(g);
